@@ -23,6 +23,9 @@ along with the GNU MP Library; see the file COPYING.LIB.  If not, write to
 the Free Software Foundation, Inc., 51 Franklin Street, Fifth Floor, Boston,
 MA 02110-1301, USA. */
 
+#include <stdio.h>
+#include <stdlib.h>
+#include <limits.h>
 #include "mpir.h"
 #include "gmp-impl.h"
 #include "longlong.h"
@@ -149,6 +152,17 @@ MA 02110-1301, USA. */
   } while (0)
 
 
+/* The result would need more limbs than an mpz_t can record: fail as
+   _mpz_realloc does, the size computations below must not wrap around
+   instead (3^11574427654092267712 got 5 limbs, (2^32)^(2^59+1) came out
+   as 2^32).  */
+static void
+mpz_n_pow_ui_overflow (void)
+{
+  fprintf (stderr, "gmp: overflow in mpz type\n");
+  abort ();
+}
+
 void
 mpz_n_pow_ui (mpz_ptr r, mp_srcptr bp, mp_size_t bsize, mpir_ui e)
 {
@@ -197,6 +211,8 @@ mpz_n_pow_ui (mpz_ptr r, mp_srcptr bp, mp_size_t bsize, mpir_ui e)
   rtwos_limbs = 0;
   for (blimb = *bp; blimb == 0; blimb = *++bp)
     {
+      if (UNLIKELY (e > (mpir_ui) INT_MAX - rtwos_limbs))
+        mpz_n_pow_ui_overflow ();
       rtwos_limbs += e;
       bsize--; ASSERT (bsize >= 1);
     }
@@ -205,6 +221,8 @@ mpz_n_pow_ui (mpz_ptr r, mp_srcptr bp, mp_size_t bsize, mpir_ui e)
   /* Strip low zero bits from b. */
   count_trailing_zeros (btwos, blimb);
   blimb >>= btwos;
+  if (UNLIKELY (btwos != 0 && e > (mpir_ui) INT_MAX * GMP_NUMB_BITS / btwos))
+    mpz_n_pow_ui_overflow ();
   rtwos_bits = e * btwos;
   rtwos_limbs += rtwos_bits / GMP_NUMB_BITS;
   rtwos_bits %= GMP_NUMB_BITS;
@@ -360,7 +378,15 @@ mpz_n_pow_ui (mpz_ptr r, mp_srcptr bp, mp_size_t bsize, mpir_ui e)
 
   ASSERT (blimb != 0);
   count_leading_zeros (cnt, blimb);
-  ralloc = (bsize*GMP_NUMB_BITS - cnt + GMP_NAIL_BITS) * e / GMP_NUMB_BITS + 5;
+  {
+    /* bits of b times e, which must not be left to wrap around */
+    mp_limb_t  ovfl, bits;
+    umul_ppmm (ovfl, bits, (mp_limb_t) (bsize*GMP_NUMB_BITS - cnt + GMP_NAIL_BITS),
+               (mp_limb_t) e);
+    if (UNLIKELY (ovfl != 0 || bits / GMP_NUMB_BITS > (mp_limb_t) INT_MAX))
+      mpz_n_pow_ui_overflow ();
+    ralloc = bits / GMP_NUMB_BITS + 5;
+  }
   TRACE (printf ("ralloc %ld, from bsize=%ld blimb=0x%lX cnt=%d\n",
                  ralloc, bsize, blimb, cnt));
   MPZ_REALLOC (r, ralloc + rtwos_limbs);
